@@ -112,4 +112,12 @@ example (a d : CompD F) (ha : a.pins = ["a", "b"]) (hd : d.pins = []) :
     emptyRec (.node [.leaf d, .node [.leaf d] [] []] [] [] : HNet F) = true := by
   simp [isDead, emptyRec, emptyAll, ha, hd]
 
+/-- non-vacuity: on the well-formed level of the sanity check of `Core/HierPruneSpec.lean` (two chained two-ports, a sub-solver
+that exposes nothing but holds a component, a component without pins) the code keeps the sub-solver too (`keepSet` = 0, 1, 2)
+while only 0 and 2 present pins (`liveSet`) -/
+example (a c d : CompD F) (ha : a.pins = ["a", "b"]) (hc : c.pins = ["a", "b"]) (hd : d.pins = []) :
+    keepSet [.leaf a, .node [.leaf a] [] [], .leaf c, .leaf d] = [0, 1, 2] ∧
+    liveSet [.leaf a, .node [.leaf a] [] [], .leaf c, .leaf d] = [0, 2] := by
+  simp [keepSet, liveSet, isDead, emptyRec, emptyAll, ha, hc, hd, List.range, List.range.loop]
+
 end HNet
